@@ -173,6 +173,8 @@ def is_pyint(t):
     tag = t[0]
     if tag == 'c':
         return type(t[1]) is int
+    if tag == 'rangelen':
+        return True
     if tag in ('it', 'bv', 'cnt'):
         return t[-1] == 'num'
     if tag == 'attr':
@@ -237,7 +239,7 @@ def kind_of(t):
         return None
     if tag in ('list', 'tuple', 'comp'):
         return 'seq'
-    if tag in ('^', '&', '|', '<<', '>>', '-', '%', '//', 'neg', 'inv', 'cmp', '**'):
+    if tag in ('^', '&', '|', '<<', '>>', '-', '%', '//', 'neg', 'inv', 'cmp', '**', 'rangelen'):
         return 'num'
     if tag in ('+', '*'):
         ks = [kind_of(x) for x in t[1]]
@@ -396,9 +398,31 @@ def _len_of(S):
     return ('call', ('b', 'len'), (S,), ())
 
 
+def mk_rangelen(dist):
+    """number of elements of a unit-step range whose bounds are `dist` apart"""
+    if is_int(dist):
+        return C(max(0, dist[1]))
+    return ('rangelen', dist)
+
+
 def canon_seq(S, opts=None):
     """(length term, k -> element term) for an iterable that is certainly indexable, else None (opaque iterator)"""
     tag = S[0]
+    if tag == 'range' and S[3] in (C(1), C(-1)) and not (S[1] == C(0) and S[3] == C(1)) \
+            and not (is_int(S[1]) and is_int(S[2])):
+        # unit-step ranges with symbolic bounds: the trip count is max(0, distance); range(a,b,-1) runs a, a-1, .., b+1
+        a, b, st = S[1], S[2], S[3]
+        o_ = Opts(plus_commutes=True)
+        dist = mk_bin('+', b, mk_neg(a, o_), o_) if st == C(1) else mk_bin('+', a, mk_neg(b, o_), o_)
+        return mk_rangelen(dist), (lambda k: mk_bin('+', a, mk_bin('*', st, k, o_), o_))
+    if tag == 'call' and S[1] == ('b', 'reversed') and len(S[2]) == 1 and not S[3] and S[2][0][0] == 'range' \
+            and S[2][0][3] == C(1) and not (is_int(S[2][0][1]) and is_int(S[2][0][2])):
+        # reversed(range(lo, hi)) runs hi-1, hi-2, .., lo  (inside the loop the trip count is exactly hi-lo)
+        lo, hi = S[2][0][1], S[2][0][2]
+        o_ = Opts(plus_commutes=True)
+        dist = mk_bin('+', hi, mk_neg(lo, o_), o_)
+        n_ = hi if lo == C(0) else mk_rangelen(dist)
+        return n_, (lambda k: mk_bin('+', mk_bin('+', hi, C(-1), o_), mk_neg(k, o_), o_))
     if tag == 'range':
         a, b, st = S[1], S[2], S[3]
         if a == C(0) and st == C(1):
@@ -2917,6 +2941,8 @@ def substitute(t, sub, opts=None):
             for x in items[1:]:
                 acc = mk_bin(tag, acc, x, opts)
             out = acc
+        elif tag == 'rangelen':
+            out = mk_rangelen(rec(t[1]))
         elif tag == 'cmp':
             out = mk_cmp(t[1], rec(t[2]), rec(t[3]))
         elif tag == 'not':
@@ -2983,6 +3009,8 @@ def _show(t, d=0):
         return 'phi%d.%d' % (t[1], t[2])
     if tag == 'after':
         return 'after%d.%d' % (t[1], t[2])
+    if tag == 'rangelen':
+        return 'max(0, %s)' % _show(t[1], d + 1)
     if tag == 'cnt':
         return 'cnt%d' % t[1]
     if tag == 'it':
